@@ -158,6 +158,60 @@ Proof.
     cbn [s_k s_c s_depth s_fp s_index]. f_equal.
     + unfold ser256. f_equal. unfold il, parse256 in *. fold (IL (I_priv (s_k nd) (s_c nd) i)).
       set (v := be_value _ 0) in *. pose proof tie_nN.
-      apply N2Z.inj. rewrite N2Z.inj_mod, N2Z.inj_add, !Z2N.id; try lia. Show.
+      apply N2Z.inj. rewrite N2Z.inj_mod, N2Z.inj_add, !Z2N.id; try lia.
+      rewrite H. reflexivity.
+    + lia.
 Qed.
+
+(* ---------- Child on a public key holding a serialised, non-zero point ---------- *)
+Lemma child_pub_eq k K i :
+  xk_priv k = false -> xk_depth k <> 255 -> xk_key k = ser_point K -> pzero K = false -> i < 2 ^ 31 ->
+  child k i =
+    let I := hmac512 (xk_chain k) (ser_point K ++ be_bytes 4 i) in
+    let il := set_bytes (firstn 32 I) in
+    if out_of_range il then Err E_invalid_child else
+    if pzero (point_of_scalar (Z.of_N il)) then Err E_invalid_child else
+    Ok (mk_xkey (xk_version k) (ser_point (padd (point_of_scalar (Z.of_N il)) K)) (skipn 32 I)
+                (firstn 4 (hash160 (ser_point K))) (xk_depth k + 1) i false).
+Proof.
+  intros Hp Hd Hk HK Hi. unfold HD.child. tie_child. rewrite const_maxUint8, const_HardenedKeyStart.
+  unfold HD.pubkey_bytes. rewrite Hp, Hk. cbv zeta.
+  destruct (N.eqb_spec (xk_depth k) 255) as [|_]; [contradiction|].
+  destruct (N.leb_spec (2 ^ 31) i) as [|_]; [lia|].
+  cbn [negb andb]. rewrite (copy_to_exact 33 _ (H_ser_len _)).
+  set (I := hmac512 (xk_chain k) _).
+  assert (HI : (length I / 2 = 32)%nat) by apply half64. rewrite HI.
+  destruct (out_of_range (set_bytes (firstn 32 I))); [reflexivity|].
+  destruct (pzero (point_of_scalar (Z.of_N (set_bytes (firstn 32 I))))); [reflexivity|].
+  rewrite (H_parse_ser K HK). reflexivity.
+Qed.
+
+Definition embed_pub_res (ver : list N) (r : option (pub_node point)) : res xkey :=
+  match r with Some nd => Ok (embed_pub ver nd) | None => Err E_invalid_child end.
+
+Theorem child_pub_conforms ver nd i :
+  pzero (p_K nd) = false -> (0 <= p_depth nd < 255)%Z -> (0 <= i < 2 ^ 31)%Z ->
+  let il := parse256 (IL (I_pub (p_K nd) (p_c nd) i)) in
+  il <> 0%Z ->
+  child (embed_pub ver nd) (Z.to_N i) = embed_pub_res ver (child_pub_node nd i).
+Proof.
+  intros HK Hd Hi il Hil0.
+  rewrite (child_pub_eq _ (p_K nd)); cbn [embed_pub xk_depth xk_priv xk_key xk_chain xk_version xk_fp xk_childnum];
+    [ | reflexivity | lia | reflexivity | exact HK | lia ].
+  cbv zeta.
+  change (hmac512 (p_c nd) (ser_point (p_K nd) ++ be_bytes 4 (Z.to_N i))) with (I_pub (p_K nd) (p_c nd) i).
+  unfold Bip32Spec.child_pub_node, Bip32Spec.CKDpub.
+  assert (Hh : hardened i = false) by (unfold hardened; destruct (Z.leb_spec (2 ^ 31) i); [lia | reflexivity]).
+  rewrite Hh. fold (IL (I_pub (p_K nd) (p_c nd) i)). rewrite out_of_range_spec. fold il.
+  assert (Eil : Z.of_N (set_bytes (IL (I_pub (p_K nd) (p_c nd) i))) = il) by reflexivity.
+  rewrite Eil.
+  destruct (Z.leb_spec Bip32Spec.n il) as [Hge|Hlt]; cbn [orb].
+  - reflexivity.
+  - destruct (Z.eqb_spec il 0) as [|_]; [contradiction|].
+    assert (Hpos : (0 <= il)%Z) by (unfold il, parse256; lia).
+    rewrite H_mul_nonzero by lia.
+    destruct (pzero (padd (point_of_scalar il) (p_K nd))) eqn:Einf; cbn [embed_pub_res].
+    2:{ unfold embed_pub. cbn [p_K p_c p_depth p_fp p_index]. f_equal. f_equal. lia. }
+    Show.
+Abort.
 End Conform.
